@@ -29,6 +29,17 @@ CHECKS["C05"] = dict(
          "any tie-breaking; corpora in which no n-gram exists are not judged for n >= 2 (nothing to learn).",
     ref="7/C05")
 
+CHECKS["C18"] = dict(
+    technique="property-based testing (Hypothesis): metric axioms, metamorphic proportional-input relation, differential sparse-vs-dense, definition-level float64 reference",
+    text="20 000 (quick) / 10^6 (thorough) generated vector pairs and triples per run in five relations (independent, proportional, "
+         "disjoint, single-entry, equal) and four sparse encodings; every distance is checked for finiteness, sign, symmetry, range, "
+         "vanishing on proportional inputs, the triangle inequality, agreement with numpy formulas written from the definitions, "
+         "sparse = dense, and the sparse helpers against dense arithmetic (indices and values). Exploration.",
+    note="Entries are 0 or within [1e-3, 1e3]. The EPS smoothing inside the divergences is treated as part of their definition; where "
+         "the smoothed definition itself does not vanish / differs on empty coordinates (computed by the reference) the corresponding "
+         "assertion is skipped and counted (labels smoothing-*).",
+    ref="7/C18")
+
 PENDING_REASON = "check not built yet in this revision of /verif (planned, see DESIGN.md section 7)"
 
 
